@@ -213,6 +213,9 @@ type step struct {
 	Advance int64   // the clock is moved to (time of the network head + Advance) if that is later than now
 	P       params
 	ViaHead bool // drive the recomputation through Head() of the Syncer left running by the previous step (same parameters)
+	// ViaGossip: deliver the new network head to the verifier closure the running Syncer registered with the
+	// Subscriber (incomingNetworkHead, then subjectiveTail whose error is only logged); only for a head adjacent to the store's head
+	ViaGossip bool
 }
 
 // view is what a scenario's step generator may look at.
@@ -256,6 +259,7 @@ type result struct {
 	moved   string
 	mode    string
 	via     string
+	gossip  bool
 }
 
 func runScenario(t *testing.T, sc scenario) []result {
@@ -301,6 +305,7 @@ func runScenario(t *testing.T, sc scenario) []result {
 		g := &chainGetter{}
 		lastOut := ""
 		var live *hsync.Syncer[*vhdr.Header]
+		var liveSub *fakeSub
 		var lastP params
 		stopLive := func() {
 			if live != nil {
@@ -322,7 +327,10 @@ func runScenario(t *testing.T, sc scenario) []result {
 			if s.ViaHead && live == nil {
 				s.ViaHead = false
 			}
-			if !s.ViaHead {
+			if s.ViaGossip && (live == nil || liveSub == nil || liveSub.verifier == nil || s.ViaHead) {
+				s.ViaGossip = false
+			}
+			if !s.ViaHead && !s.ViaGossip {
 				stopLive()
 			}
 			for _, gap := range s.Grow {
@@ -348,6 +356,11 @@ func runScenario(t *testing.T, sc scenario) []result {
 					stopLive()
 				}
 			}
+			if s.ViaGossip && uint64(len(chain)) != before.Head+1 {
+				// a head further away is handed to the sync loop, which would run beside subjectiveTail
+				s.ViaGossip = false
+				stopLive()
+			}
 			out := "OOk"
 			func() {
 				defer func() {
@@ -355,6 +368,12 @@ func runScenario(t *testing.T, sc scenario) []result {
 						out = "OPanic"
 					}
 				}()
+				if s.ViaGossip {
+					if err := liveSub.verifier(ctx, chain[len(chain)-1]); err != nil {
+						out = "OErr"
+					}
+					return
+				}
 				if s.ViaHead {
 					if _, err := live.Head(ctx); err != nil {
 						out = "OErr"
@@ -362,7 +381,8 @@ func runScenario(t *testing.T, sc scenario) []result {
 					return
 				}
 				var err error
-				live, err = hsync.NewSyncer[*vhdr.Header](g, st, &fakeSub{}, s.P.options(chain, foreign)...)
+				liveSub = &fakeSub{}
+				live, err = hsync.NewSyncer[*vhdr.Header](g, st, liveSub, s.P.options(chain, foreign)...)
 				if err != nil {
 					out = "OInvalid"
 					live = nil
@@ -373,7 +393,7 @@ func runScenario(t *testing.T, sc scenario) []result {
 				}
 			}()
 			synctest.Wait()
-			if out != "OOk" {
+			if out != "OOk" && !s.ViaGossip {
 				stopLive() // only a Syncer whose Start/Head succeeded is kept for a following Head() step
 			}
 			lastP = s.P
@@ -395,6 +415,9 @@ func runScenario(t *testing.T, sc scenario) []result {
 			gs := make([]string, 0, len(times))
 			for i := 1; i < len(times); i++ {
 				gs = append(gs, emit.Z((times[i]-times[i-1])/u))
+			}
+			if s.ViaGossip {
+				s.ViaHead = false
 			}
 			term := fmt.Sprintf("Case16 %s (times_of %s %s %s) %s %s (Obs %s %s %s)", s.P.term(), emit.Z(times[0]), emit.Z(u), emit.List(gs),
 				emit.Z(now), before.term(), out, emit.List(req), after.term())
@@ -421,7 +444,15 @@ func runScenario(t *testing.T, sc scenario) []result {
 				class: fmt.Sprintf("%s/%s/%s/%s/b%d/e%v/x%d/r%d/h%v", sc.Kind, mode, out, moved, sign(s.P.Block), before.Tail == 0, len(after.Extra), len(g.req), s.ViaHead),
 				nontriv: out == "OOk" && moved != "same",
 				out:     out, moved: mode + "-" + moved, mode: mode, via: map[bool]string{false: "Start", true: "Head"}[s.ViaHead],
+				gossip: s.ViaGossip,
 			})
+			if s.ViaGossip {
+				r := &results[len(results)-1]
+				r.term = "Case16g (" + r.term + ")"
+				r.via = "Gossip"
+				r.class = "gossip/" + r.class
+				r.descr["via_gossip"] = true
+			}
 		}
 		stopLive()
 		// a wedged step may have used up ctx: the store is stopped with a context of its own, and a failing
@@ -788,11 +819,15 @@ func TestC16(t *testing.T) {
 		scs = append(scs, sweepScenarios(4, []int64{0, 2, 5}, []int64{1, 2, 4, 7}, 2)...)
 		w.Extra["sweep"] = "complete: chains of 4 headers, gaps in {0,2,5}ns, every store [t..h] with h < 4, windows {1,2,4,7}ns, blockTime 2ns"
 	}
+	scs = append(scs, extremeScenarios()...)
 	for _, sc := range scs {
 		if sc.Kind == "" {
 			sc.Kind = "witness"
 		}
 		for _, r := range runScenario(t, sc) {
+			if r.gossip {
+				continue // emitted by TestC16Gossip
+			}
 			w.Add(r.term, r.descr, r.class, r.nontriv)
 			w.Count("outcome", r.out)
 			w.Count("tail_move", r.moved)
